@@ -10,6 +10,7 @@ package main
 import (
 	"flag"
 	"fmt"
+	"go/types"
 	"os"
 	"path/filepath"
 	"strings"
@@ -111,6 +112,39 @@ func runCase(o *vh.Out, fs compa.Files, origin string, shrink bool) {
 	o.Case(caseLine, implOf(oc), oc.Rep == nil || oc.Rep.Parse != "panic")
 }
 
+type failingImporter struct{}
+
+func (failingImporter) Import(path string) (*types.Package, error) {
+	return nil, fmt.Errorf("no such package %s", path)
+}
+
+// envCase: the one environment-dependent entry of the battery. An importer that cannot find
+// "fmt" makes gogen.NewPackage panic inside cl.NewPackage; with a Recorder configured the deferred
+// rec.Complete runs after the recover (model witness C07_recorder_defer_unprotected). The real
+// NewPackage must return an error, not panic.
+func envCase(o *vh.Out) {
+	fs := compa.Files{"main.xgo": "echo 1\n"}
+	for _, withRec := range []bool{false, true} {
+		p := compa.Parse(fs)
+		res := "err"
+		func() {
+			defer func() {
+				if r := recover(); r != nil {
+					res = "ESC:" + compa.PanicKey(r)
+				}
+			}()
+			if _, err := compa.CompileWith(p.Fset, compa.MainPkg(p.Pkgs), failingImporter{}, withRec); err == nil {
+				res = "ok"
+			}
+		}()
+		line := fmt.Sprintf("c07env\tfailing-importer-recorder=%v", withRec)
+		if strings.HasPrefix(res, "ESC:") {
+			o.Oracle(fmt.Sprintf("escaped-panic:cl.NewPackage:importer-failure:recorder=%v", withRec), line, res)
+		}
+		o.Case(line, res[:3], true)
+	}
+}
+
 func main() {
 	if len(os.Args) >= 3 && os.Args[1] == "-worker" {
 		compa.WorkerMain(os.Args[2])
@@ -129,6 +163,10 @@ func main() {
 	exe, _ := os.Executable()
 	child = compa.NewChild(exe, envDir)
 	defer child.Close()
+	if strings.HasPrefix(f.Replay, "c07env") {
+		envCase(o)
+		return
+	}
 	if f.Replay != "" {
 		fs := strings.SplitN(f.Replay, "\t", 2)
 		if len(fs) == 2 {
@@ -139,6 +177,7 @@ func main() {
 	thorough := f.Tier == "thorough"
 	r := vh.NewRand(f.Seed)
 	o.Stats["corpus_items"] = len(corpus)
+	envCase(o)
 	// 0. minimised past failures
 	if ents, err := os.ReadDir(*pastDir); err == nil {
 		for _, e := range ents {
